@@ -1,6 +1,7 @@
 package main
 
 import (
+	"math"
 	"sort"
 	"strconv"
 
@@ -19,8 +20,8 @@ import (
 var sizedLensQuick = []int{0, 1, 2, 3, 11, 12, 13, 15, 16, 17, 31, 32, 33, 63, 64, 65, 127, 128, 129, 192, 256, 1000}
 var sizedLensThorough = []int{255, 257, 511, 512, 513, 1024, 4095, 4096, 4097, 10000}
 
-const sizedPatterns = 16
-const sizedForms = 10
+const sizedPatterns = 21
+const sizedForms = 16
 
 var sizedFnNames []string
 
@@ -83,6 +84,32 @@ func sizedArray(n, pattern int) []interface{} {
 			a[i] = map[string]interface{}{"k": float64((i / 3) % 2), "v": float64(i)}
 		case 14: // strings that are prefixes of each other, duplicates, multi-byte
 			a[i] = []string{"a", "ab", "abc", "", "ab", "é", "e\u0301", "abcd", "b", "a"}[(i*7)%10]
+		case 16: // string keys, one number in the middle (a key expression over k fails there, after string keys were seen)
+			a[i] = map[string]interface{}{"k": str, "v": float64(i)}
+			if i == n/2 {
+				a[i] = map[string]interface{}{"k": num, "v": float64(i)}
+			}
+		case 17: // string keys, a number second
+			a[i] = map[string]interface{}{"k": str, "v": float64(i)}
+			if i == 1 {
+				a[i] = map[string]interface{}{"k": num, "v": float64(i)}
+			}
+		case 18: // fractions that cancel exactly (the total is 0 for even n)
+			a[i] = float64(i/2) + 0.5
+			if i%2 == 1 {
+				a[i] = -(float64(i/2) + 0.5)
+			}
+		case 19: // zeros of both signs
+			a[i] = float64(0)
+			if i%3 == 1 {
+				a[i] = math.Copysign(0, -1)
+			}
+		case 20: // descending with ties at the top (the largest key occurs three times, on different elements)
+			k := float64(n - i)
+			if i < 3 {
+				k = float64(n)
+			}
+			a[i] = map[string]interface{}{"k": k, "v": float64(i)}
 		default: // descending keys with ties at the end
 			k := float64(n - i)
 			if i >= n-3 {
@@ -124,8 +151,20 @@ func sizedCase(i int, thorough bool) (*gen.Expr, interface{}, string) {
 		tree = gen.Func(fn, gen.Chain(a, gen.StListStar(), gen.StField("k")))
 	case 8:
 		tree = gen.Func(fn, gen.Chain(a, gen.StListStar(), gen.StField("v")), gen.ExpRef(gen.Current()))
-	default:
+	case 9:
 		tree = gen.Chain(gen.MultiList(gen.Func(fn, a), gen.Func(fn, a)), gen.StIndex(1))
+	case 10: // a key expression that fails where k is not a string / not a number
+		tree = gen.Func(fn, a, gen.ExpRef(gen.Func("length", gen.Field("k"))))
+	case 11:
+		tree = gen.Func(fn, a, gen.ExpRef(gen.Func("join", gen.Raw(""), gen.MultiList(gen.Field("k")))))
+	case 12: // a selection directly behind the call
+		tree = gen.Chain(gen.Func(fn, a, gen.ExpRef(gen.Field("k"))), gen.StIndex(-1), gen.StField("v"))
+	case 13:
+		tree = gen.Chain(gen.Func(fn, a, gen.ExpRef(gen.Field("k"))), gen.StIndex(0), gen.StField("v"))
+	case 14:
+		tree = gen.MultiList(gen.Chain(gen.Func(fn, a), gen.StIndex(-1)), gen.Chain(gen.Func(fn, a), gen.StIndex(0)), gen.Chain(gen.Func(fn, a), gen.StSliceS("", "2", "")))
+	default:
+		tree = gen.Func(fn, gen.ExpRef(gen.Func("abs", gen.Field("k"))), a)
 	}
 	doc := map[string]interface{}{"a": sizedArray(n, pattern), "s": "s1", "k": float64(1)}
 	return tree, doc, fn + " form " + strconv.Itoa(form) + " pattern " + strconv.Itoa(pattern) + " length " + strconv.Itoa(n)
